@@ -5,6 +5,7 @@ import J5V.Print.OptionText
 import J5V.Print.Order
 import J5V.Print.Layout
 import J5V.Print.Wire
+import J5V.Print.Scalar
 /-! Line-protocol driver for the print cluster (C05), core only.
 One op per input line, one result per output line; see /verif/harness/PROTOCOL-print.md. -/
 open J5V.Go J5V.Print
@@ -145,9 +146,41 @@ def stepFile (toks : List String) : String :=
           | none => "unread"
         toHexW (Wire.strToBytes text) ++ " " ++ second
 
+def intClass (o : Option Int) : String :=
+  match o with
+  | some n => "int:" ++ toString n
+  | none => "other"
+
+/-- how the grammar model tokenises a scalar text: `num`, `- num`, `ident`, `- ident` -/
+def tokenShape (text : String) : String :=
+  let kinds := (Grammar.lex text).filterMap fun t =>
+    match t.tok with
+    | .num _ => some "num"
+    | .ident _ => some "ident"
+    | .sym c => some (String.singleton c)
+    | .str _ => some "str"
+    | .eof => none
+  " ".intercalate kinds
+
 def step (line : String) : String :=
   match line.trimAscii.toString.splitOn " " with
   | "file" :: rest => stepFile rest
+  | ["int", v] => match v.toInt? with
+    | some n =>
+      let text := Scalar.formatInt n
+      toHexW (stringToBytes text) ++ " " ++ intClass (Scalar.readIntLit text.toList)
+    | none => "bad-op"
+  | ["uint", v] => match v.toNat? with
+    | some n =>
+      let text := Scalar.formatUint n
+      toHexW (stringToBytes text) ++ " " ++ intClass (Scalar.readIntLit text.toList)
+    | none => "bad-op"
+  | ["numlit", h] => match hexStr h with
+    | some text => intClass (Scalar.readIntLit text.toList)
+    | none => "bad-op"
+  | ["flt", _, _, h] => match hexStr h with
+    | some text => h ++ " " ++ tokenShape text      -- floats by oracle text: only the token shape is the model's
+    | none => "bad-op"
   | ["str", h] => match fromHex h with
     | some bs =>
       let lit := TextString.textString bs
